@@ -70,6 +70,7 @@ func refSketch(n, k int, seqs []core.S) []uint64 {
 }
 
 func runC17(r *core.Run) {
+	firstCallClause(r, "mash.")
 	defer racePass(r, "race-C17", "Sequences and Distance on shared input sequences")
 
 	ks := []int{1, 2, 3}
@@ -507,12 +508,67 @@ func runC17(r *core.Run) {
 
 	// Distance laws on all pairs of full sketches
 	dpool := [][]string{{"ACGTAC"}, {"GTACGT"}, {"ACGTACGG"}, {"TTTTAAAACC"}, {"GGGGCCCC"}, {"ACGTTGCATG"}, {"CATGCAACGT"}, {"AAAAAAAA", "CC"}, {"GATTACAGATTACA"}, {"tgtaatctgtaatc"}, {"ACACACAC", "GTGTGTGT"}, {"CAGTCAGTNNACGT"}}
-	core.Clause(r, "distance-laws", core.Opts{Rule: "all ordered pairs of inputs from a pool of 12 x k in {1,2,3} x n in {1,2,3,5}; only pairs where both sketches are full: each pair as live sketches, as Frozen() copies and mixed, and each sketch with itself: Distance symmetric, within [0,1], 0 for identical k-mer content, equal (<=1e-12) to min(1,-ln(2j/(1+j))/k) with j computed by brute force from the two bottom-n sets (1 when j=0); non-trivial = all evaluated pairs"},
+	distCheck := func(c c17Pair) core.Outcome {
+		va, ma, p1 := sketchOf(c.N, c.K, c.A)
+		vb, mb, p2 := sketchOf(c.N, c.K, c.B)
+		if p1 != "" || p2 != "" {
+			return core.Failf("panic: %s %s", p1, p2)
+		}
+		if len(va) != c.N || len(vb) != c.N {
+			return core.Outcome{Skip: true} // not full: outside the statement
+		}
+		j := ref.SketchJaccard(va, vb)
+		want := ref.MashFromJaccard(j, c.K)
+		ka := ref.CanonicalKmerHashes(c.K, mash.Seed, toBytes(c.A)...)
+		kb := ref.CanonicalKmerHashes(c.K, mash.Seed, toBytes(c.B)...)
+		same := len(ka) == len(kb)
+		for h := range ka {
+			if _, ok := kb[h]; !ok {
+				same = false
+			}
+		}
+		// the two sketches in each representation a caller may hold: as returned (live) and as
+		// the immutable sorted copy Frozen() gives (the form meant for all-vs-all distances)
+		reps := []struct {
+			name string
+			x, y *minhash.MinHash[uint64]
+		}{{"live,live", ma, mb}, {"frozen,frozen", ma.Frozen(), mb.Frozen()}, {"frozen,live", ma.Frozen(), mb}, {"live,frozen", ma, mb.Frozen()}}
+		for _, rep := range reps {
+			var d, d2, self float64
+			if p := catch(func() {
+				d = mash.Distance(rep.x, rep.y, c.K)
+				d2 = mash.Distance(rep.y, rep.x, c.K)
+				self = mash.Distance(rep.x, rep.x, c.K)
+			}); p != "" {
+				return core.Failf("Distance panicked on sorted full sketches (%s) of %q and %q: %s", rep.name, c.A, c.B, p)
+			}
+			if d != d2 {
+				return core.Failf("(%s) Distance(%q,%q)=%v but Distance(%q,%q)=%v", rep.name, c.A, c.B, d, c.B, c.A, d2)
+			}
+			if !(d >= 0 && d <= 1) {
+				return core.Failf("(%s) Distance(%q,%q,k=%d,n=%d) = %v outside [0,1]", rep.name, c.A, c.B, c.K, c.N, d)
+			}
+			if math.Abs(d-want) > 1e-12 {
+				return core.Failf("(%s) Distance(%q,%q,k=%d,n=%d) = %v, want %v (shared fraction of the n smallest of the union j=%v)", rep.name, c.A, c.B, c.K, c.N, d, want, j)
+			}
+			if same && d != 0 {
+				return core.Failf("(%s) Distance(%q,%q) = %v for identical k-mer content, want 0", rep.name, c.A, c.B, d)
+			}
+			if self != 0 {
+				return core.Failf("(%s) Distance of the sketch of %q with itself (the same object passed twice) = %v, want 0", rep.name, c.A, self)
+			}
+		}
+		if !slices.Equal(ma.View(), va) || !slices.Equal(mb.View(), vb) {
+			return core.Failf("Distance modified a sketch")
+		}
+		return core.Outcome{Class: fmt.Sprintf("j=%.2f", j), Nontrivial: true, Evals: 12}
+	}
+	core.Clause(r, "distance-laws", core.Opts{Rule: "all ordered pairs of inputs from a pool of 12 x k in {1,2,3} x every n in 1..14 (so that for each input some n is exactly its number of distinct k-mers: sketches that are full without ever having dropped a value); only pairs where both sketches are full: each pair as live sketches, as Frozen() copies and mixed, and each sketch with itself: Distance symmetric, within [0,1], 0 for identical k-mer content, equal (<=1e-12) to min(1,-ln(2j/(1+j))/k) with j computed by brute force from the two bottom-n sets (1 when j=0); non-trivial = all evaluated pairs"},
 		func(emit func(c17Pair) bool) {
 			for _, a := range dpool {
 				for _, b := range dpool {
 					for _, k := range ks {
-						for _, n := range []int{1, 2, 3, 5} {
+						for n := 1; n <= 14; n++ {
 							if !emit(c17Pair{core.SS(a...), core.SS(b...), k, n}) {
 								return
 							}
@@ -521,61 +577,31 @@ func runC17(r *core.Run) {
 				}
 			}
 		},
-		func(c c17Pair) core.Outcome {
-			va, ma, p1 := sketchOf(c.N, c.K, c.A)
-			vb, mb, p2 := sketchOf(c.N, c.K, c.B)
-			if p1 != "" || p2 != "" {
-				return core.Failf("panic: %s %s", p1, p2)
+		distCheck)
+	core.Clause(r, "distance-exactly-full", core.Opts{Rule: "pairs of windows of one aperiodic sequence, each window holding EXACTLY n distinct k-mers (window length n+k-1), shifted against each other by 0..n: both sketches are full without ever having dropped a value, the overlap is partial; same oracle as distance-laws; k in {3, 7, 21} x n in {4, 10, 25}; non-trivial = all evaluated pairs"},
+		func(emit func(c17Pair) bool) {
+			base := make([]byte, 400)
+			x := uint64(0x2545F4914F6CDD1D)
+			for i := range base {
+				x ^= x << 13
+				x ^= x >> 7
+				x ^= x << 17
+				base[i] = "ACGT"[x>>62]
 			}
-			if len(va) != c.N || len(vb) != c.N {
-				return core.Outcome{Skip: true} // not full: outside the statement
-			}
-			j := ref.SketchJaccard(va, vb)
-			want := ref.MashFromJaccard(j, c.K)
-			ka := ref.CanonicalKmerHashes(c.K, mash.Seed, toBytes(c.A)...)
-			kb := ref.CanonicalKmerHashes(c.K, mash.Seed, toBytes(c.B)...)
-			same := len(ka) == len(kb)
-			for h := range ka {
-				if _, ok := kb[h]; !ok {
-					same = false
-				}
-			}
-			// the two sketches in each representation a caller may hold: as returned (live) and as
-			// the immutable sorted copy Frozen() gives (the form meant for all-vs-all distances)
-			reps := []struct {
-				name string
-				x, y *minhash.MinHash[uint64]
-			}{{"live,live", ma, mb}, {"frozen,frozen", ma.Frozen(), mb.Frozen()}, {"frozen,live", ma.Frozen(), mb}, {"live,frozen", ma, mb.Frozen()}}
-			for _, rep := range reps {
-				var d, d2, self float64
-				if p := catch(func() {
-					d = mash.Distance(rep.x, rep.y, c.K)
-					d2 = mash.Distance(rep.y, rep.x, c.K)
-					self = mash.Distance(rep.x, rep.x, c.K)
-				}); p != "" {
-					return core.Failf("Distance panicked on sorted full sketches (%s) of %q and %q: %s", rep.name, c.A, c.B, p)
-				}
-				if d != d2 {
-					return core.Failf("(%s) Distance(%q,%q)=%v but Distance(%q,%q)=%v", rep.name, c.A, c.B, d, c.B, c.A, d2)
-				}
-				if !(d >= 0 && d <= 1) {
-					return core.Failf("(%s) Distance(%q,%q,k=%d,n=%d) = %v outside [0,1]", rep.name, c.A, c.B, c.K, c.N, d)
-				}
-				if math.Abs(d-want) > 1e-12 {
-					return core.Failf("(%s) Distance(%q,%q,k=%d,n=%d) = %v, want %v (shared fraction of the n smallest of the union j=%v)", rep.name, c.A, c.B, c.K, c.N, d, want, j)
-				}
-				if same && d != 0 {
-					return core.Failf("(%s) Distance(%q,%q) = %v for identical k-mer content, want 0", rep.name, c.A, c.B, d)
-				}
-				if self != 0 {
-					return core.Failf("(%s) Distance of the sketch of %q with itself (the same object passed twice) = %v, want 0", rep.name, c.A, self)
+			for _, k := range []int{3, 7, 21} {
+				for _, n := range []int{4, 10, 25} {
+					l := n + k - 1
+					for start := 0; start <= 40; start += 20 {
+						for shift := 0; shift <= n; shift++ {
+							a, b := string(base[start:start+l]), string(base[start+shift:start+shift+l])
+							if !emit(c17Pair{core.SS(a), core.SS(b), k, n}) {
+								return
+							}
+						}
+					}
 				}
 			}
-			if !slices.Equal(ma.View(), va) || !slices.Equal(mb.View(), vb) {
-				return core.Failf("Distance modified a sketch")
-			}
-			return core.Outcome{Class: fmt.Sprintf("j=%.2f", j), Nontrivial: true, Evals: 12}
-		})
+		}, distCheck)
 
 	core.Clause(r, "fromjaccard-grid", core.Opts{Rule: "complete grid j = i/m for m in 1..64, 0 <= i <= m, k in 1..32: FromJaccard within [0,1], equal to the formula, non-increasing in j along each row; non-trivial = all"},
 		func(emit func(c17Jac) bool) {
